@@ -433,9 +433,13 @@ UPull(e) ==
      /\ Note([a |-> "pull", e |-> e, k |-> k])
 
 Internal == \/ Fast \/ \E e \in E : ProtoTimer(e) \/ EnvTimeout(e)
-Next == \/ Internal
-        \/ EnvCut \/ EnvReconnect \/ \E e \in E : EnvStallTimeout(e)
-        \/ \E e \in E : UOpen(e) \/ UClose(e) \/ UPull(e) \/ \E v \in {"accept", "reject"} : UVal(e, v)
+\* Reduction: the user drains its event queue eagerly (pulling is invisible to everybody else and the
+\* monitors are per endpoint, so only "command issued before an available event was read" is lost; a
+\* command that acts on an outdated view is still covered by the lag of the command queue).
+Next == IF \E e \in E : w.evq[e] # <<>> THEN \E e \in E : UPull(e)
+        ELSE \/ Internal
+             \/ EnvCut \/ EnvReconnect \/ \E e \in E : EnvStallTimeout(e)
+             \/ \E e \in E : UOpen(e) \/ UClose(e) \/ \E v \in {"accept", "reject"} : UVal(e, v)
 
 Spec == Init /\ [][Next]_vars
 
